@@ -17,22 +17,24 @@ def make_copy(fil, old, new):
     shutil.copytree(os.path.join(REPO, 'src'), os.path.join(r, 'src'))
     for f in ('Cargo.toml', 'Cargo.lock'):
         shutil.copy(os.path.join(REPO, f), r)
-    p = os.path.join(r, fil)
-    s = open(p).read()
-    occ = 1
-    if old.startswith('@2:'):
-        occ, old = 2, old[3:]
-    n = s.count(old)
-    if n < occ or (occ == 1 and n != 1):
-        shutil.rmtree(d)
-        return None, 'anchor text occurs %d times in %s' % (n, fil)
-    if occ == 1:
-        s = s.replace(old, new)
-    else:
-        i = s.index(old)
-        i = s.index(old, i + 1)
-        s = s[:i] + new + s[i + len(old):]
-    open(p, 'w').write(s)
+    edits = old if fil is None else [(fil, old, new, False)]
+    for efile, eold, enew, eall in edits:
+        p = os.path.join(r, efile)
+        s = open(p).read()
+        occ = 1
+        if eold.startswith('@2:'):
+            occ, eold = 2, eold[3:]
+        n = s.count(eold)
+        if n < occ or (occ == 1 and n != 1 and not eall):
+            shutil.rmtree(d)
+            return None, 'anchor text occurs %d times in %s' % (n, efile)
+        if eall or occ == 1:
+            s = s.replace(eold, enew)
+        else:
+            i = s.index(eold)
+            i = s.index(eold, i + 1)
+            s = s[:i] + enew + s[i + len(eold):]
+        open(p, 'w').write(s)
     return d, None
 
 
